@@ -470,7 +470,7 @@ def check_C20(ctx):
                ["events", "record", "--runs", str(runs), "--iters", str(iters)],
                "recorded SliderEventsIter calls are not a behaviour of the SliderEvents specification", "events-trace")
     # the declarative stream on real-valued parameters off the lattice
-    summ = harness(ctx, ["events", "relations", "--iters", "2000000" if thorough else "150000"], name="events-relations", timeout=3600)
+    summ = harness(ctx, ["events", "relations", "--iters", "500000" if thorough else "100000"], name="events-relations", timeout=3600)
     report_mismatches(ctx, summ, "the event stream for real-valued parameters is not the declarative stream of the specification")
     ctx.assumptions += ["MODEL: parameters on the dyadic 1/8 lattice with integer velocities (exactness rule): float and rational arithmetic agree on every branch",
                         "real-valued parameters (decimal velocities, lengths, tick distances as produced by decimal slider multipliers and bpm) are "
